@@ -51,10 +51,12 @@ type tunnelLab struct {
 }
 
 type step struct {
-	Op   string `json:"op"`             // c-send | c-send-echo | b-send | c-ping | b-ping | sync
-	Type string `json:"type,omitempty"` // text | binary
-	Size int    `json:"size,omitempty"`
-	Salt int    `json:"salt,omitempty"`
+	Op      string `json:"op"`             // c-send | c-send-echo | b-send | c-ping | b-ping | sync | quiet
+	Type    string `json:"type,omitempty"` // text | binary
+	Size    int    `json:"size,omitempty"`
+	Salt    int    `json:"salt,omitempty"`
+	Ms      int    `json:"ms,omitempty"`      // quiet: at least this much real time without traffic
+	Chatter string `json:"chatter,omitempty"` // quiet: "" = both directions silent | client | backend = that side keeps sending small messages, the opposite direction is silent
 }
 
 type closeStep struct {
@@ -261,8 +263,20 @@ func samePayloads(a, b [][]byte) bool {
 
 // runConversation plays cv over a fresh session through the lab; it returns the first violation.
 func runConversation(l *wsLab, tl tunnelLab, cv conversation) (viol string) {
+	return runTaggedConversation(l, tl, cv, "")
+}
+
+// chatterEvery is the pace of the talking side during a one-directional quiet period (not an oracle).
+const chatterEvery = 200 * time.Millisecond
+
+// runTaggedConversation is runConversation for one of several sessions that run in parallel on the
+// same lab: tag travels in the handshake (X-Verif-Session) and selects the backend end of this session.
+func runTaggedConversation(l *wsLab, tl tunnelLab, cv conversation, tag string) (viol string) {
 	d := websocket.Dialer{HandshakeTimeout: ioBudget, ReadBufferSize: 4096, WriteBufferSize: 4096}
 	hdr := http.Header{"Accept-Encoding": {"gzip"}, "X-Client-Tag": {"c20"}}
+	if tag != "" {
+		hdr.Set("X-Verif-Session", tag)
+	}
 	if tl.BigFrames {
 		d.WriteBufferSize = 256 << 10
 		hdr.Set("X-Verif-Bigframes", "1")
@@ -272,10 +286,31 @@ func runConversation(l *wsLab, tl tunnelLab, cv conversation) (viol string) {
 	}
 	var cc *websocket.Conn
 	var resp *http.Response
-	err := dialRetry(func() (e error) {
-		cc, resp, e = d.Dial("ws://"+l.Addr+"/ws/session?room=1", hdr)
-		return e
-	})
+	var err error
+	// A lab with 1 s timeouts may legitimately refuse an opening handshake that a starved machine stretched
+	// beyond a configured timeout (read, backend_dial, backend_read as response-header timeout, a probe that
+	// timed out). That is no clause of C20: such sessions (tag != "") get up to 4 attempts, spaced by more
+	// than the configured 1-2 s timers; only a handshake that fails every time is reported.
+	attempts := 1
+	if tag != "" {
+		attempts = 4
+	}
+	for a := 1; a <= attempts; a++ {
+		if tag != "" {
+			tag = fmt.Sprintf("%s-a%d", strings.SplitN(tag, "-a", 2)[0], a) // a backend end left over from a failed attempt is never claimed
+			hdr.Set("X-Verif-Session", tag)
+		}
+		err = dialRetry(func() (e error) {
+			cc, resp, e = d.Dial("ws://"+l.Addr+"/ws/session?room=1", hdr)
+			return e
+		})
+		if err == nil || strings.Contains(err.Error(), envPrefix) {
+			break
+		}
+		if a < attempts {
+			time.Sleep(time.Duration(a) * 1200 * time.Millisecond)
+		}
+	}
 	if err != nil && strings.Contains(err.Error(), envPrefix) {
 		return err.Error()
 	}
@@ -289,27 +324,7 @@ func runConversation(l *wsLab, tl tunnelLab, cv conversation) (viol string) {
 	s := &session{l: l, client: newPeer("client", cc, l.notify)}
 	defer s.client.kill()
 	// the backend that accepted the upgrade
-	deadline := time.After(ioBudget)
-	got := make(chan *peer, 1)
-	go func() {
-		for {
-			for _, b := range l.backends {
-				select {
-				case p := <-b.accepted:
-					got <- p
-					return
-				default:
-				}
-			}
-			select {
-			case <-l.notify:
-			case <-time.After(time.Millisecond):
-			}
-		}
-	}()
-	select {
-	case s.server = <-got:
-	case <-deadline:
+	if s.server = l.claim(tag, ioBudget); s.server == nil {
 		return "harness: the client completed the handshake but no backend reported an accepted session"
 	}
 	defer s.server.kill()
@@ -350,9 +365,44 @@ func runConversation(l *wsLab, tl tunnelLab, cv conversation) (viol string) {
 		}
 	}
 	for i, st := range cv.Steps {
-		if st.Op == "sync" {
-			if v := s.waitFor(fmt.Sprintf("step %d (sync): delivery of everything sent so far", i), quiescent); v != "" {
+		if st.Op == "sync" || st.Op == "quiet" {
+			if v := s.waitFor(fmt.Sprintf("step %d (%s): delivery of everything sent so far", i, st.Op), quiescent); v != "" {
 				return v + s.progressText(toServer, toClient)
+			}
+			if st.Op == "sync" {
+				continue
+			}
+			// quiet: everything sent so far has been received, so from here on the silent direction(s) carry
+			// nothing for AT LEAST st.Ms of real time (no upper bound is assumed or asserted). Neither side
+			// closes, so neither side's read may end.
+			start := time.Now()
+			want := time.Duration(st.Ms) * time.Millisecond
+			sent := 0
+			for {
+				el := time.Since(start)
+				if c, b := s.client.snap(), s.server.snap(); c.readEnded || b.readEnded {
+					dir := "in both directions"
+					switch st.Chatter {
+					case "client":
+						dir = "backend -> client (the client kept sending)"
+					case "backend":
+						dir = "client -> backend (the backend kept sending)"
+					}
+					return fmt.Sprintf("the session was torn down although neither side had closed: step %d, %v into a quiet period of %v %s: client read error %v, backend read error %v%s",
+						i, el.Round(time.Millisecond), want, dir, c.readErr, b.readErr, s.progressText(toServer, toClient))
+				}
+				if el >= want {
+					break
+				}
+				if st.Chatter != "" && el >= time.Duration(sent)*chatterEvery {
+					op := "c-send"
+					if st.Chatter == "backend" {
+						op = "b-send"
+					}
+					play(step{Op: op, Type: []string{"text", "binary"}[sent%2], Size: 1 + (st.Salt+sent)%125, Salt: st.Salt + sent})
+					sent++
+				}
+				time.Sleep(min(20*time.Millisecond, want-el))
 			}
 			continue
 		}
